@@ -12,6 +12,7 @@ import (
 	"strings"
 	"sync"
 	"time"
+	"unsafe"
 
 	"golang.org/x/sys/unix"
 	"google.golang.org/protobuf/proto"
@@ -53,6 +54,9 @@ type diskState struct {
 	staging    string
 	midcycle   *midcycleEvent    // under mu
 	mounts     map[string]string // side -> mount point of its own small tmpfs (a separate device), if any
+	canaryMu   sync.Mutex
+	inotify    int              // inotify descriptor watching the canary tree (-1: none)
+	watches    map[int32]string // watch descriptor -> canary-relative directory
 }
 
 // midcycleEvent is a user action that strikes just before the Nth hooked
@@ -126,6 +130,7 @@ func (h *harness) setupDisk() error {
 	}
 	os.WriteFile(filepath.Join(d.canary, "d"), []byte("canary-d"), 0o644)
 	d.canaryHash = d.hashTree(d.canary)
+	d.watchCanary()
 	g := h.plan.C("fs_gates")
 	for i, act := range []string{"scan", "transition", "stage", "supply", "receive", "poll"} {
 		if g&(1<<i) != 0 {
@@ -156,6 +161,9 @@ func setHook(f func(op string, dirfd int, path string, dirfd2 int, path2 string)
 func (h *harness) teardownDisk() {
 	filesystem.VerifSyscallHook = nil
 	if h.disk != nil {
+		if h.disk.inotify >= 0 {
+			unix.Close(h.disk.inotify)
+		}
 		for _, mp := range h.disk.mounts {
 			unix.Unmount(mp, unix.MNT_DETACH)
 		}
@@ -340,6 +348,15 @@ func (d *diskState) hook(op string, dirfd int, path string, dirfd2 int, path2 st
 
 // entryAt describes what is on disk at an absolute path right now.
 func (d *diskState) entryAt(abs, rel string) *core.Entry {
+	// Never through a link: when the user has swapped a parent for a symbolic
+	// link, mutagen's descriptor-relative operation acts on the detached old
+	// directory, and nothing at the lexical path is affected (following the
+	// link here would make the harness itself the one that leaves the root).
+	for _, side := range []string{"alpha", "beta", "gamma"} {
+		if root := d.roots[side]; strings.HasPrefix(abs, root+"/") && !parentsAreDirs(root, rel) {
+			return nil
+		}
+	}
 	return d.walk(abs, rel, false)
 }
 
@@ -646,9 +663,10 @@ func (d *diskState) userOp(op simkit.Op) {
 			rmAll(abs)
 		}
 	case "chmod":
+		// chmod(2) leaves the modification time alone (only the change time
+		// moves): the permission bits are the only trace of this edit.
 		if st, err := os.Lstat(abs); err == nil && st.Mode().IsRegular() {
 			os.Chmod(abs, st.Mode().Perm()^0o111)
-			d.touch(abs)
 		}
 	case "rootdel":
 		rmAll(root)
@@ -812,7 +830,10 @@ func copyTree(src, dst string) {
 	default:
 		mkSpecial(dst)
 	}
-	os.Chtimes(dst, st.ModTime(), st.ModTime())
+	if st.Mode()&os.ModeSymlink == 0 {
+		// (never through a link: os.Chtimes follows it and would stamp the target)
+		os.Chtimes(dst, st.ModTime(), st.ModTime())
+	}
 }
 
 // -------------------------------------------------------- endpoint wrapper
@@ -999,6 +1020,7 @@ func (e *diskEndpoint) Stage(paths []string, digests [][]byte) ([]string, []*rsy
 	defer h.leave(e.side)
 	h.onStage(e.side, paths)
 	filtered, sigs, recv, err := e.inner.Stage(paths, digests)
+	h.disk.checkCanary("after " + e.side + " stage")
 	h.s.Logf("ctl."+e.side, "stage %d paths -> %d needed, err %v", len(paths), len(filtered), err)
 	return filtered, sigs, recv, err
 }
@@ -1170,14 +1192,94 @@ func (e *diskEndpoint) Shutdown() error {
 }
 
 // diskInvariant runs at every quiescent point of a disk scenario.
-func (h *harness) diskInvariant() {}
+func (h *harness) diskInvariant() {
+	if h.disk != nil {
+		h.disk.canaryAccesses("at a quiescent point")
+	}
+}
 
 // checkCanary verifies that nothing outside the roots was touched (C17).
 func (d *diskState) checkCanary(when string) {
+	// Serialised: the harness's own hashing of the canary produces events that
+	// another harness goroutine must not mistake for mutagen's.
+	d.canaryMu.Lock()
+	defer d.canaryMu.Unlock()
+	d.canaryAccessesLocked(when)
 	if got := d.hashTree(d.canary); got != d.canaryHash {
 		d.h.s.Violate("C17", "canary-modified", when, "the canary directory outside both roots was created in, modified or deleted from (%s)", when)
 		d.canaryHash = got
 	}
+	d.drainCanaryEvents() // the harness's own reads just now
+}
+
+// watchCanary puts a non-blocking inotify watch on every directory of the canary
+// tree. Nothing but the harness's own hashing (whose events are discarded right
+// after) has any business there: the simulated user never acts through a link,
+// the walker never follows one, so any event is an access by mutagen that left
+// the root through an in-root symbolic link - whatever call it used, hooked or not.
+func (d *diskState) watchCanary() {
+	d.inotify = -1
+	fd, err := unix.InotifyInit1(unix.IN_NONBLOCK | unix.IN_CLOEXEC)
+	if err != nil {
+		d.h.s.Count("probe.inotify_unavailable", 1)
+		return
+	}
+	d.inotify, d.watches = fd, map[int32]string{}
+	filepath.Walk(d.canary, func(p string, info os.FileInfo, err error) error {
+		if err == nil && info.IsDir() {
+			if wd, err := unix.InotifyAddWatch(fd, p, unix.IN_OPEN|unix.IN_ACCESS|unix.IN_MODIFY|unix.IN_CREATE|unix.IN_DELETE|unix.IN_ATTRIB|unix.IN_MOVED_FROM|unix.IN_MOVED_TO|unix.IN_DELETE_SELF); err == nil {
+				d.watches[int32(wd)] = strings.TrimPrefix(strings.TrimPrefix(p, d.canary), "/")
+			}
+		}
+		return nil
+	})
+	d.drainCanaryEvents()
+}
+
+// drainCanaryEvents reads all pending events and returns them rendered.
+func (d *diskState) drainCanaryEvents() []string {
+	if d.inotify < 0 {
+		return nil
+	}
+	var out []string
+	buf := make([]byte, 16384)
+	for {
+		n, err := unix.Read(d.inotify, buf)
+		if n <= 0 || err != nil {
+			return out
+		}
+		for off := 0; off+unix.SizeofInotifyEvent <= n; {
+			ev := (*unix.InotifyEvent)(unsafe.Pointer(&buf[off]))
+			name := strings.TrimRight(string(buf[off+unix.SizeofInotifyEvent:off+unix.SizeofInotifyEvent+int(ev.Len)]), "\x00")
+			var kinds []string
+			for _, k := range []struct {
+				bit  uint32
+				name string
+			}{{unix.IN_OPEN, "open"}, {unix.IN_ACCESS, "read"}, {unix.IN_MODIFY, "write"}, {unix.IN_CREATE, "create"}, {unix.IN_DELETE, "delete"}, {unix.IN_ATTRIB, "attrib"}, {unix.IN_MOVED_FROM, "moved-from"}, {unix.IN_MOVED_TO, "moved-to"}, {unix.IN_DELETE_SELF, "delete-self"}} {
+				if ev.Mask&k.bit != 0 {
+					kinds = append(kinds, k.name)
+				}
+			}
+			out = append(out, fmt.Sprintf("%s of %q", strings.Join(kinds, "+"), filepath.Join(d.watches[ev.Wd], name)))
+			off += unix.SizeofInotifyEvent + int(ev.Len)
+		}
+	}
+}
+
+// canaryAccesses reports every access to the canary tree since the last drain.
+func (d *diskState) canaryAccesses(when string) {
+	d.canaryMu.Lock()
+	defer d.canaryMu.Unlock()
+	d.canaryAccessesLocked(when)
+}
+
+func (d *diskState) canaryAccessesLocked(when string) {
+	evs := d.drainCanaryEvents()
+	if len(evs) == 0 {
+		return
+	}
+	sort.Strings(evs)
+	d.h.s.Violate("C17", "canary-accessed", strings.Fields(evs[0])[0], "something outside both roots was opened, read or changed (%s): %s", when, strings.Join(evs, "; "))
 }
 
 var _ = errors.New
